@@ -127,6 +127,61 @@ fn absent_entries(after: &Node, prev: &Node, path: &mut Vec<Seg>, acc: &mut Vec<
     }
 }
 
+/// Equal if the order of the elements inside of sequences (text units, array elements, XML
+/// children) is disregarded, at every level.
+fn same_up_to_order(a: &Node, b: &Node) -> bool {
+    fn canon(n: &Node) -> serde_json::Value {
+        use serde_json::{json, Value};
+        fn sorted(mut v: Vec<Value>) -> Value {
+            v.sort_by_key(|x| x.to_string());
+            Value::Array(v)
+        }
+        // format marks are elements of the sequence as well: a mark that lands on the other side
+        // of a neighbour shifts an attribute by one element.  Compared: the elements as a
+        // multiset, and the set of attribute values that occur at all.
+        let units = |us: &Vec<crate::dump::Unit>| -> Value {
+            let values = sorted(
+                us.iter()
+                    .map(|u| match &u.v {
+                        crate::dump::UnitV::Ch(c) => json!({"c": c.to_string()}),
+                        crate::dump::UnitV::Embed(e) => json!({"e": canon(e)}),
+                    })
+                    .collect(),
+            );
+            let mut attrs: Vec<String> = us.iter().flat_map(|u| u.attrs.iter().map(|(k, v)| format!("{}={}", k, serde_json::to_string(v).unwrap_or_default()))).collect();
+            attrs.sort();
+            attrs.dedup();
+            json!({"values": values, "attrs": attrs})
+        };
+        match n {
+            Node::Text(us) => json!({"text": units(us)}),
+            Node::XmlText { attrs, units: us } => json!({"xmltext": units(us), "attrs": attrs.iter().map(|(k, v)| (k.clone(), canon(v))).collect::<serde_json::Map<String, Value>>()}),
+            Node::Array(v) => json!({"array": sorted(v.iter().map(canon).collect())}),
+            Node::XmlFragment(v) => json!({"fragment": sorted(v.iter().map(canon).collect())}),
+            Node::XmlElement { tag, attrs, children } => json!({"tag": tag, "attrs": attrs.iter().map(|(k, v)| (k.clone(), canon(v))).collect::<serde_json::Map<String, Value>>(), "children": sorted(children.iter().map(canon).collect())}),
+            Node::Map(m) => Value::Object(m.iter().map(|(k, v)| (k.clone(), canon(v))).collect()),
+            other => serde_json::to_value(other).unwrap_or(Value::Null),
+        }
+    }
+    canon(a) == canon(b)
+}
+
+/// One record per element: tombstones of one key with adjacent clocks are squashed into one block
+/// (a re-created value and the value that overwrote it, for example); a stack item may account for
+/// a part of such a block only, and `redo` splits it again.
+fn chain_elements(chain: &[yrs::verif_hooks::ItemInfo]) -> Vec<yrs::verif_hooks::ItemInfo> {
+    let mut out = Vec::new();
+    for r in chain.iter() {
+        for k in 0..r.len.max(1) {
+            let mut e = r.clone();
+            e.id = yrs::ID::new(r.id.client, r.id.clock + k);
+            e.len = 1;
+            out.push(e);
+        }
+    }
+    out
+}
+
 /// Known finding G3: the entry that was not restored has, to the right of the value to restore,
 /// a tombstone that no stack item accounts for at the moment its group is processed (a later
 /// value of the same origin whose undo/redo entry was dropped or already popped) —
@@ -141,6 +196,7 @@ fn g3_explains(rep: &Replica, after: &Node, expected: &Node, stacks: &Stacks) ->
     let Some(branch) = t.out.try_branch() else { continue };
     let chains = yrs::verif_hooks::branch_map_items(branch);
     let Some((_, chain)) = chains.iter().find(|(k, _)| k.as_ref() == key.as_str()) else { continue };
+    let chain = chain_elements(chain);
     for (i, r) in chain.iter().enumerate() {
         if !r.deleted {
             continue;
@@ -169,6 +225,7 @@ fn g3_prone(rep: &Replica, stacks: &Stacks) -> bool {
     {
         // every key chain of the store, also those of deleted (restorable) parents
         for chain in yrs::verif_hooks::all_map_chains(yrs::ReadTxn::store(&txn)) {
+            let chain = chain_elements(&chain);
             for (i, r) in chain.iter().enumerate() {
                 if !r.deleted {
                     continue;
@@ -261,6 +318,25 @@ impl Prop for Isolated {
     }
 
     fn check(&self, case: &ICase, st: &mut CaseStats) -> Result<(), Fail> {
+        // Known finding G3 makes the rest of a case unpredictable for the model: a stack item whose
+        // map entry cannot be restored is dropped silently and the same call goes on with the next
+        // one.  Once the precondition of G3 has been seen before an undo call, later disagreements
+        // between the dump-sequence model and undo/redo are attributed to G3 (and counted);
+        // everything that does not depend on the model (followers, untracked types, forced GC,
+        // memory safety) stays in force.
+        let tainted = std::cell::Cell::new(false);
+        match self.check_inner(case, st, &tainted) {
+            Err(f) if tainted.get() && (f.sig.starts_with("c12/isolated/undo-") || f.sig.starts_with("c12/isolated/redo-")) => {
+                st.hit("model_disagreements_after_a_g3_precondition");
+                Err(Fail::new("c12/isolated/map-entry-not-restored", format!("(after the precondition of known finding G3 had been seen in this case) {}", f.msg)))
+            }
+            other => other,
+        }
+    }
+}
+
+impl Isolated {
+    fn check_inner(&self, case: &ICase, st: &mut CaseStats, tainted: &std::cell::Cell<bool>) -> Result<(), Fail> {
         let rep = Replica::new(case.cfg.clone());
         let clock = Arc::new(AtomicU64::new(10_000));
         let mut mgr = manager(&clock);
@@ -313,6 +389,10 @@ impl Prop for Isolated {
                 follow(&format!("step {} {:?}", si - 1, case.steps[si - 1]), st)?;
             }
             if debug {
+                let txn = rep.doc.transact();
+                let b: Vec<String> = yrs::verif_hooks::store_blocks(yrs::ReadTxn::store(&txn)).iter().map(|b| format!("{}#{}+{}{}{}", b.client.get(), b.clock, b.len, if b.deleted { "d" } else { "" }, if b.kind == yrs::verif_hooks::BlockKind::GC { "GC" } else { "" })).collect();
+                eprintln!("   blocks {:?}", b);
+                drop(txn);
                 eprintln!("-- before {}: groups {:?} redo {:?} last_change {} real {}", when, groups.iter().map(|g| g.short()).collect::<Vec<_>>(), redo.len(), last_change, scope_dump(&rep, case.scope).short());
             }
             match step {
@@ -398,6 +478,9 @@ impl Prop for Isolated {
                     let outside = outside_dump(&rep, case.scope);
                     let stack_dels = stack_deletions(&mgr);
                     let prone = g3_prone(&rep, &stack_dels);
+                    if prone {
+                        tainted.set(true);
+                    }
                     let ret = if case.async_api { block_on(mgr.undo()) } else { mgr.undo_blocking() };
                     let after = scope_dump(&rep, case.scope);
                     if ret {
@@ -425,6 +508,10 @@ impl Prop for Isolated {
                         let prev = groups.last().unwrap().clone();
                         if after != prev && (prone || g3_explains(&rep, &after, &prev, &stack_dels)) {
                             fail!("c12/isolated/map-entry-not-restored", "{}: undo did not restore a map entry whose chain holds a tombstone that no stack item accounts for (known finding G3): {}", when, first_diff(&after, &prev).unwrap_or_default());
+                        }
+                        if after != prev && same_up_to_order(&after, &prev) {
+                            // known finding G15: every element is back, one of them on the wrong side of a neighbour
+                            fail!("c12/isolated/undo-reorders-elements", "{}: undo restored every element but not their order: {}", when, first_diff(&after, &prev).unwrap_or_default());
                         }
                         if after != prev {
                             fail!("c12/isolated/undo-wrong-content", "{}: undo did not restore the content before the last captured step: {}", when, first_diff(&after, &prev).unwrap_or_default());
@@ -460,6 +547,9 @@ impl Prop for Isolated {
                         }
                         match redo.pop() {
                             Some(e) => {
+                                if after != e && same_up_to_order(&after, &e) {
+                                    fail!("c12/isolated/undo-reorders-elements", "{}: redo restored every element but not their order: {}", when, first_diff(&after, &e).unwrap_or_default());
+                                }
                                 if after != e {
                                     fail!("c12/isolated/redo-wrong-content", "{}: redo did not restore the content after the undone step: {}", when, first_diff(&after, &e).unwrap_or_default());
                                 }
@@ -775,6 +865,8 @@ pub fn property() -> Property {
         assumptions: vec![
             "capture groups are decided by the harness clock: consecutive tracked edits without clock advance share a group, an advance of 10x the timeout, an undo/redo or reset() starts a new one".into(),
             "in the mixed part elements are unique, so a redone element is recognised by content".into(),
+            "known finding G3 drops a blocked stack item silently: once its precondition has been seen before an undo call of a case, later disagreements between the model and undo/redo are attributed to G3 (counted); followers, untracked types, forced GC and memory safety stay in force".into(),
+            "known finding G15: after == expected as multisets of elements at every level but not in order carries its own signature".into(),
         ],
         parts: vec![Box::new(Part(Isolated)), Box::new(Part(Mixed))],
     }
